@@ -89,7 +89,7 @@ def abi_mismatch(w):
         ibody = im.group(1) if im else ''
         for f in inner[3]:
             if f[4][0] == 'address' and not f[2].startswith('_'):
-                mm = re.search(r'fn %s\(.*?let f:\s*unsafe\s+extern\s+"(\w+)"\s+fn' % re.escape(f[2]), ibody, re.S)
+                mm = re.search(r'fn %s\(.*?let \w+:\s*unsafe\s+extern\s+"(\w+)"\s+fn' % re.escape(f[2]), ibody, re.S)
                 if not mm or mm.group(1) != f[7]:
                     return 'wrapper %s::%s: emitted %s, resolved %s' % (nm, f[2], mm.group(1) if mm else None, f[7])
     return None
@@ -159,10 +159,11 @@ def gen_harness(w, modprefix, kinds=None):
                 if not all(is_intlike(at) or at[0] in ('const*', 'mut*') for _, at in args): continue
                 sid = stub_n[0] if False else None
                 params = []; rec = []
-                if recv: params.append('this: *%s %s' % ('const' if recv[0] == '&self' else 'mut', nm)); rec.append('LOG_THIS = this as usize;')
+                # stub parameters and harness locals get positional names: the description's own parameter names may be anything (`this`, `f`, `obj`...)
+                if recv: params.append('p_this: *%s %s' % ('const' if recv[0] == '&self' else 'mut', nm)); rec.append('LOG_THIS = p_this as usize;')
                 for ai, (an, at) in enumerate(args):
-                    params.append('%s: %s' % (an, rust_type(at, mp)))
-                    rec.append('LOG_ARGS[%d] = %s as u64;' % (ai, an) if is_intlike(at) else 'LOG_ARGS[%d] = %s as usize as u64;' % (ai, an))
+                    params.append('q%d: %s' % (ai, rust_type(at, mp)))
+                    rec.append('LOG_ARGS[%d] = q%d as u64;' % (ai, ai) if is_intlike(at) else 'LOG_ARGS[%d] = q%d as usize as u64;' % (ai, ai))
                 ret = f[6]
                 rett = '' if ret is None else ' -> ' + rust_type(ret, mp)
                 retv = '' if ret is None else ('77 as %s' % ret[1] if is_intlike(ret) and ret[1] != 'bool' else ('true' if ret == ['raw', 'bool'] else 'core::mem::zeroed()'))
@@ -171,10 +172,10 @@ def gen_harness(w, modprefix, kinds=None):
                 decl = []; call = []; chk = []
                 for ai, (an, at) in enumerate(args):
                     if is_intlike(at):
-                        decl.append('        let %s: %s = kani::any();' % (an, at[1])); call.append(an); chk.append('        assert_eq!(LOG_ARGS[%d], %s as u64);' % (ai, an))
+                        decl.append('        let v%d: %s = kani::any();' % (ai, at[1])); call.append('v%d' % ai); chk.append('        assert_eq!(LOG_ARGS[%d], v%d as u64);' % (ai, ai))
                     else:
-                        decl.append('        let %s_raw: usize = kani::any();' % an); decl.append('        let %s = %s_raw as %s;' % (an, an, rust_type(at, mp)))
-                        call.append(an); chk.append('        assert_eq!(LOG_ARGS[%d], %s_raw as u64);' % (ai, an))
+                        decl.append('        let v%d_raw: usize = kani::any();' % ai); decl.append('        let v%d = v%d_raw as %s;' % (ai, ai, rust_type(at, mp)))
+                        call.append('v%d' % ai); chk.append('        assert_eq!(LOG_ARGS[%d], v%d_raw as u64);' % (ai, ai))
                 h = 'addrcall_%s_%s' % (nm, f[2])
                 body = ['    #[kani::proof]', '    fn %s() {' % h, '      unsafe {', '        let mut obj: %s = core::mem::zeroed();' % nm,
                         '        NEXT_FN = %s as usize; LOG_CALLS = 0; LOG_ADDR_USES = 0;' % sname] + decl
@@ -249,12 +250,12 @@ def gen_harness(w, modprefix, kinds=None):
             sid = stub_n[0]; stub_n[0] += 1
             params = []; rec = []
             ai = 0
-            for (an, at) in ft[2]:
-                params.append('%s: %s' % (an, rust_type(at, mp)))
-                if an == 'this': rec.append('LOG_THIS = this as usize;')
+            for pi, (an, at) in enumerate(ft[2]):
+                params.append('p%d: %s' % (pi, rust_type(at, mp)))
+                if an == 'this' and pi == 0: rec.append('LOG_THIS = p0 as usize;')
                 else:
-                    if is_intlike(at): rec.append('LOG_ARGS[%d] = %s as u64;' % (ai, an))
-                    elif at[0] in ('const*', 'mut*'): rec.append('LOG_ARGS[%d] = %s as usize as u64;' % (ai, an))
+                    if is_intlike(at): rec.append('LOG_ARGS[%d] = p%d as u64;' % (ai, pi))
+                    elif at[0] in ('const*', 'mut*'): rec.append('LOG_ARGS[%d] = p%d as usize as u64;' % (ai, pi))
                     ai += 1
             ret = ft[3]
             rett = '' if ret is None else ' -> ' + rust_type(ret, mp)
@@ -278,12 +279,12 @@ def gen_harness(w, modprefix, kinds=None):
             ok = True
             for ai, (an, at) in enumerate(args):
                 if is_intlike(at):
-                    decl.append('        let %s: %s = kani::any();' % (an, at[1])); call.append(an)
-                    chk.append('        assert_eq!(LOG_ARGS[%d], %s as u64);' % (ai, an))
+                    decl.append('        let v%d: %s = kani::any();' % (ai, at[1])); call.append('v%d' % ai)
+                    chk.append('        assert_eq!(LOG_ARGS[%d], v%d as u64);' % (ai, ai))
                 elif at[0] in ('const*', 'mut*'):
-                    decl.append('        let %s_raw: usize = kani::any();' % an)
-                    decl.append('        let %s = %s_raw as %s;' % (an, an, rust_type(at, mp))); call.append(an)
-                    chk.append('        assert_eq!(LOG_ARGS[%d], %s_raw as u64);' % (ai, an))
+                    decl.append('        let v%d_raw: usize = kani::any();' % ai)
+                    decl.append('        let v%d = v%d_raw as %s;' % (ai, ai, rust_type(at, mp))); call.append('v%d' % ai)
+                    chk.append('        assert_eq!(LOG_ARGS[%d], v%d_raw as u64);' % (ai, ai))
                 else: ok = False
             if not ok: continue
             h = 'dispatch_%s_%s' % (nm, fname)
@@ -330,8 +331,8 @@ def gen_harness(w, modprefix, kinds=None):
             stubs = []
             for r in treg:
                 ft = r[4]; sid = stub_n[0]; stub_n[0] += 1
-                params = ['%s: %s' % (an, rust_type(at, mp)) for (an, at) in ft[2]]
-                rec = ['LOG_THIS = this as usize;'] if any(an == 'this' for an, _ in ft[2]) else []
+                params = ['p%d: %s' % (pi, rust_type(at, mp)) for pi, (an, at) in enumerate(ft[2])]
+                rec = ['LOG_THIS = p0 as usize;'] if (ft[2] and ft[2][0][0] == 'this') else []
                 ret = ft[3]
                 rett = '' if ret is None else ' -> ' + rust_type(ret, mp)
                 retv = '' if ret is None else ('%d as %s' % (40 + sid, ret[1]) if is_intlike(ret) and ret[1] != 'bool' else 'core::mem::zeroed()')
@@ -340,13 +341,13 @@ def gen_harness(w, modprefix, kinds=None):
             sid = [s for n, s in stubs if n == orig][0]
             args = [a for a in f[5] if not isinstance(a, str)]
             if not all(is_intlike(at) for _, at in args): continue
-            decl = ['        let %s: %s = kani::any();' % (an, at[1]) for an, at in args]
+            decl = ['        let v%d: %s = kani::any();' % (ai, at[1]) for ai, (an, at) in enumerate(args)]
             h = 'forward_%s_%s' % (nm, f[2])
             out += ['    #[kani::proof]', '    fn %s() {' % h, '      unsafe {',
                     '        let table = %s { %s };' % (btab[3:], ', '.join('%s: stub_%d' % (n, s) for n, s in stubs)),
                     '        let mut obj: %s = core::mem::zeroed();' % nm,
                     '        obj.%s.vftable = &table;' % field, '        LOG_CALLS = 0;'] + decl + [
-                    '        obj.%s(%s);' % (f[2], ', '.join(an for an, _ in args)),
+                    '        obj.%s(%s);' % (f[2], ', '.join('v%d' % ai for ai in range(len(args)))),
                     '        assert_eq!(LOG_CALLS, 1);', '        assert_eq!(LOG_ID, %d);' % sid,
                     '        assert_eq!(LOG_THIS, core::ptr::addr_of!(obj.%s) as usize);' % field, '      }', '    }']
             names.append(h)
@@ -491,7 +492,9 @@ def build_crate(workdir, witnesses, kinds=None, canary=True):
         if canary and w is witnesses[0]:
             # vacuity guard: a harness with a deliberately wrong expectation must be reported as failed
             harness = harness.rstrip()[:-1] + '    #[kani::proof]\n    fn canary_must_fail() { let x: u8 = kani::any(); assert!(x != 77); }\n}'
-        text = normalise(w.text, mp) + '\n' + extern_defs(w) + '\n' + harness + '\n'
+        emitted = normalise(w.text, mp)
+        w.emitted_lines = emitted.count('\n') + 1
+        text = emitted + '\n' + extern_defs(w) + '\n' + harness + '\n'
         # disambiguate harness names across witnesses
         for n in names:
             text = text.replace('fn %s()' % n, 'fn w%d_%s()' % (w.idx, n))
